@@ -148,9 +148,26 @@ def gen_alias_trace(recipe):
       warnings.simplefilter('ignore')
       er = cls(**dict(base, **{repl: val}))
       er.fit(*tr['fit_args'])
+    # the life of an alias-built estimator goes on: set_params on the replacement, then clone (what any meta-estimator does)
+    val2 = {'n_constraints': 11, 'n_chunks': 4, 'tol': 0.2, 'n_neighbors': 1}.get(repl, 2)
+    clone_exc, clone_value_ok, m_clone, m_direct = '', False, '', ''
+    with warnings.catch_warnings():
+      warnings.simplefilter('ignore')
+      try:
+        from sklearn.base import clone as sk_clone
+        e2 = cls(**dict(base, **{alias: val}))
+        e2.set_params(**{repl: val2})
+        c2 = sk_clone(e2)
+        clone_value_ok = bool(c2.get_params()[repl] == val2 and e2.get_params()[repl] == val2)
+        c2.fit(*tr['fit_args'])
+        m_clone = lifecycle.digest(np.asarray(c2.components_))
+        m_direct = lifecycle.digest(np.asarray(cls(**dict(base, **{repl: val2})).fit(*tr['fit_args']).components_))
+      except Exception as e:
+        clone_exc = type(e).__name__
     events.append({'ev': 'AliasFit', 'alias': alias, 'replacement': repl, 'future_warning': bool(fw),
                    'model_alias': lifecycle.digest(np.asarray(ea.components_)),
-                   'model_replacement': lifecycle.digest(np.asarray(er.components_))})
+                   'model_replacement': lifecycle.digest(np.asarray(er.components_)),
+                   'clone_exc': clone_exc, 'clone_value_ok': clone_value_ok, 'model_clone': m_clone, 'model_direct': m_direct})
   # every public method on a fresh (unfitted) object
   w_ = lifecycle.World(name, recipe['seed'])
   for qi, qn in enumerate(w_.qnames):
